@@ -22,9 +22,11 @@ import (
 	"fmt"
 	"os"
 	"path/filepath"
+	"runtime"
 	"sort"
 	"strconv"
 	"strings"
+	"sync"
 	"time"
 
 	"github.com/oklog/ulid/v2"
@@ -1450,6 +1452,227 @@ func runFaultWitness(ctx context.Context, w *rec.Writer, seed uint64, tier strin
 	w.Stat("fault_witness_scenarios", 1)
 }
 
+// ------------------------------------------------------------------------------------------------
+// concurrent writers: k goroutines each doing m single-tuple Writes on one store (distinct tuples,
+// tiny random sleeps / yields so that the lock hand-over varies).  Afterwards, with no writer
+// running: the unpaged changelog must hold every committed write exactly once, its timestamps
+// (the source of the ULID time) must not decrease in returned order on the memory backend -- the
+// changelog is in ULID order, which is what resuming with `ulid > token` relies on -- and every
+// paged traversal (page sizes 1, 2, 3, 7) must return exactly the unpaged listing.
+
+type changeObs struct {
+	key string
+	ms  int64
+}
+
+func readChangesRaw(ctx context.Context, b *backend, typ string, ps int, token string) (items []changeObs, next string, code int) {
+	defer func() {
+		if r := recover(); r != nil {
+			code = codePanic
+		}
+	}()
+	cmd := commands.NewReadChangesQuery(b.ds, commands.WithReadChangeQueryHorizonOffset(0))
+	resp, err := cmd.Execute(ctx, &openfgav1.ReadChangesRequest{StoreId: b.store, Type: typ, PageSize: pageSize(ps), ContinuationToken: token})
+	if err != nil {
+		return nil, "", classify(err)
+	}
+	for _, c := range resp.GetChanges() {
+		k := c.GetTupleKey()
+		o := 0
+		if c.GetOperation() == openfgav1.TupleOperation_TUPLE_OPERATION_DELETE {
+			o = 1
+		}
+		items = append(items, changeObs{change{o, tup{k.GetObject(), k.GetRelation(), k.GetUser()}}.key(), c.GetTimestamp().AsTime().UnixMilli()})
+	}
+	return items, resp.GetContinuationToken(), codePage
+}
+
+func concurrentRound(ctx context.Context, w *rec.Writer, seed uint64, tier string, r *rec.Rand, kind, k, m, preload, round int) {
+	var b *backend
+	if kind == 0 {
+		b = &backend{kind: 0, ds: memory.New()}
+	} else {
+		var err error
+		b, err = newSqlite(fmt.Sprintf("s%d-cc%d-%d", seed, round, os.Getpid()))
+		if err != nil {
+			panic(err)
+		}
+	}
+	defer b.close()
+	b.store = ulid.Make().String()
+	desc := map[string]any{"kind": "concurrent", "seed": seed, "tier": tier, "ds": -3, "backend": backendNames[kind], "writers": k, "writes_each": m, "round": round}
+	// a large store makes every Write hold the lock longer (memory.Write walks all tuples)
+	for done := 0; done < preload; {
+		var ws storage.Writes
+		for i := 0; i < 100 && done < preload; i++ {
+			ws = append(ws, &openfgav1.TupleKey{Object: "bulk:" + strconv.Itoa(done), Relation: "viewer", User: "user:bulk"})
+			done++
+		}
+		if err := b.ds.Write(ctx, b.store, nil, ws); err != nil {
+			panic(err)
+		}
+	}
+	type res struct{ ok []string }
+	results := make([]res, k)
+	seeds := make([]uint64, k)
+	for i := range seeds {
+		seeds[i] = r.Uint64()
+	}
+	var wg sync.WaitGroup
+	start := make(chan struct{})
+	for g := 0; g < k; g++ {
+		wg.Add(1)
+		go func(g int) {
+			defer wg.Done()
+			lr := rec.NewRand(seeds[g])
+			<-start
+			for j := 0; j < m; j++ {
+				switch lr.Intn(4) {
+				case 0:
+					runtime.Gosched()
+				case 1:
+					time.Sleep(time.Duration(lr.Intn(300)) * time.Microsecond)
+				case 2:
+					time.Sleep(time.Duration(lr.Intn(40)) * time.Microsecond)
+				}
+				t := tup{"doc:g" + strconv.Itoa(g) + "-" + strconv.Itoa(j), "viewer", "user:w" + strconv.Itoa(g)}
+				if err := b.ds.Write(ctx, b.store, nil, storage.Writes{tk(t)}); err == nil {
+					results[g].ok = append(results[g].ok, change{0, t}.key())
+				}
+			}
+		}(g)
+	}
+	close(start)
+	wg.Wait()
+	time.Sleep(3 * time.Millisecond)
+	written := map[string]bool{}
+	for _, rs := range results {
+		for _, kx := range rs.ok {
+			written[kx] = true
+		}
+	}
+	w.Stat("concurrent_rounds_"+backendNames[kind], 1)
+	w.Stat("concurrent_writes_committed", len(written))
+
+	// unpaged listing
+	full, _, code := readChangesRaw(ctx, b, "doc", len(written)+10, "")
+	if code != codePage && !(len(written) == 0) {
+		w.PropFail("ReadChanges (one page) failed after concurrent writes", desc)
+		return
+	}
+	seen := map[string]int{}
+	for _, it := range full {
+		seen[it.key]++
+	}
+	okSet := len(full) == len(written)
+	for kx := range written {
+		if seen[kx] != 1 {
+			okSet = false
+		}
+	}
+	if !okSet {
+		d2 := map[string]any{"listed": len(full), "committed": len(written)}
+		for kk, v := range desc {
+			d2[kk] = v
+		}
+		w.PropFail("after concurrent writers the unpaged changelog does not hold every committed write exactly once", d2)
+	}
+	if kind == 0 {
+		inversions := 0
+		for i := 1; i < len(full); i++ {
+			if full[i].ms < full[i-1].ms {
+				inversions++
+			}
+		}
+		if inversions > 0 {
+			d2 := map[string]any{"inversions": inversions, "changes": len(full)}
+			for kk, v := range desc {
+				d2[kk] = v
+			}
+			w.PropFail("changelog not in ULID order: the millisecond timestamps that seed the changelog ULIDs decrease in commit order (ReadChanges resumes with ulid > token)", d2)
+			w.Stat("concurrent_ulid_time_inversions", inversions)
+		}
+	}
+	// paged traversals against the unpaged listing
+	var ulids []string
+	for _, ps := range []int{1, 2, 3, 7} {
+		var got []string
+		var pages []pageObs
+		token := ""
+		end := codePage
+		uni := make([]row, len(full))
+		for i, it := range full {
+			uni[i] = row{"", i, it.key}
+		}
+		for step := 0; ; step++ {
+			if step > len(full)+5 {
+				end = codeRunaway
+				break
+			}
+			items, next, c := readChangesRaw(ctx, b, "doc", ps, token)
+			if c != codePage {
+				end = c
+				break
+			}
+			var ks []string
+			for _, it := range items {
+				ks = append(ks, it.key)
+			}
+			got = append(got, ks...)
+			dec, _ := decodeWire(next)
+			pages = append(pages, pageObs{identIDs(uni, ks), dec})
+			if ps == 1 && len(items) == 1 {
+				u, _, _ := strings.Cut(string(dec), "|")
+				ulids = append(ulids, u)
+			}
+			if len(items) == 0 {
+				break
+			}
+			token = next
+		}
+		same := end == codePage && len(got) == len(full)
+		for i := 0; same && i < len(got); i++ {
+			same = got[i] == full[i].key
+		}
+		if !same {
+			d2 := map[string]any{"ps": ps, "paged": len(got), "unpaged": len(full), "end": end}
+			for kk, v := range desc {
+				d2[kk] = v
+			}
+			w.PropFail("after concurrent writers a paged ReadChanges traversal differs from the unpaged listing (a change is missing or repeated)", d2)
+		}
+		w.Stat("concurrent_traversals", 1)
+		// model record (keys = the ULIDs learned from the one-by-one traversal, when it was complete)
+		if len(ulids) == len(full) {
+			rows := make([]row, len(full))
+			for i, it := range full {
+				rows[i] = row{ulids[i], i, it.key}
+			}
+			pv := make([]rec.V, len(pages))
+			for i, p := range pages {
+				pv[i] = rec.L(rec.LI(p.ids), rec.B(p.next))
+			}
+			d2 := map[string]any{"ps": ps, "n": len(full)}
+			for kk, v := range desc {
+				d2[kk] = v
+			}
+			w.Case(d2, rec.I(1), rec.I(apiChanges), rec.I(kind), rec.I(ps), rec.S("doc"), rowsV(rows), rec.L(pv...), rec.I(end))
+		}
+	}
+}
+
+func runConcurrent(ctx context.Context, w *rec.Writer, seed uint64, tier string) {
+	r := rec.NewRand(seed ^ 0xc0c0)
+	type cfg struct{ kind, k, m, preload int }
+	cfgs := []cfg{{0, 4, 60, 1500}, {0, 8, 50, 1500}, {0, 16, 30, 2000}, {0, 12, 40, 2500}, {1, 4, 10, 0}, {1, 8, 6, 0}}
+	if tier == "thorough" {
+		cfgs = append(cfgs, cfg{0, 16, 80, 3000}, cfg{0, 8, 120, 3000}, cfg{0, 6, 100, 4000}, cfg{1, 16, 8, 0})
+	}
+	for i, c := range cfgs {
+		concurrentRound(ctx, w, seed, tier, r.Fork(), c.kind, c.k, c.m, c.preload, i)
+	}
+}
+
 func main() {
 	o := rec.ParseFlags()
 	w := rec.NewWriter(o.Out)
@@ -1493,6 +1716,10 @@ func main() {
 				continue
 			}
 			done[k] = true
+			if k.ds == -3 {
+				runConcurrent(ctx, w, k.seed, tier)
+				continue
+			}
 			if k.ds == -2 {
 				runFaultWitness(ctx, w, k.seed, tier)
 				continue
@@ -1517,6 +1744,7 @@ func main() {
 	}
 	runWitness(ctx, w, o.Seed, o.Tier)
 	runFaultWitness(ctx, w, o.Seed, o.Tier)
+	runConcurrent(ctx, w, o.Seed, o.Tier)
 	r := rec.NewRand(o.Seed)
 	for i := 0; i < o.N; i++ {
 		runDataset(ctx, w, o.Seed, o.Tier, i, r.Fork(), maxItems, maxSmall, -1)
